@@ -169,6 +169,11 @@ def apply(raw, known=None):
             wide_missing = [m for m in missing if m != old and m.split("::")[0] == mod and (len(known["fns"][m]["sig"]), known["fns"][m]["sig"][0]) == shape]
             if len(wide) == 1 and not wide_missing and ref["sig"][0] not in ("()", "bool"):
                 cands = wide
+            else:
+                # ... or the same function under the same name: `m::f(&x)` became `m::T::f(&self)` (or back)
+                named = [p for p in wide if p.rsplit("::", 1)[-1] == old.rsplit("::", 1)[-1]]
+                if len(named) == 1:
+                    cands = named
         if len(cands) == 1 and cands[0] not in pmap:
             pmap[cands[0]] = old
     if pmap:
